@@ -124,8 +124,11 @@ class EventManager(TaskManager, Generic[T]):
 
         async def _call_once(value: Any) -> Any:
             """Unsubscribe callback from the event and calls it."""
-            self.unsubscribe(name, _call_once)
-            return await callback(value)
+            if self.unsubscribe(name, _call_once):
+                return await callback(value)
+
+            # Already consumed by an overlapping dispatch (or unsubscribed).
+            return None
 
         return self.subscribe(name, _call_once)
 
